@@ -1,6 +1,7 @@
 package main
 
 import (
+	"strconv"
 	"fmt"
 	ctok "github.com/pip-services3-gox/pip-services3-expressions-gox/calculator/tokenizers"
 	"github.com/pip-services3-gox/pip-services3-expressions-gox/tokenizers"
@@ -410,6 +411,29 @@ func runParseCase(c *Ctx, expr string, label string) parseOut {
 	if o.status != "" {
 		c.fail(Failure{Kind: "oracle", Op: "expr " + strRunes(expr), Impl: impl, Note: fmt.Sprintf("SetExpression(%q) did not return normally: %s", expr, o.status)})
 		return o
+	}
+	if o.status == "" && o.lexical && o.code == "ERROR_AT" {
+		// rejected before the syntax analysis because a numeric constant is "out of range": some constant of the text must be
+		justified := false
+		if e := strings.Trim(expr, " \t\r\n"); e != "" {
+			t := ctok.NewExpressionTokenizer()
+			setOpts(t, 8)
+			for _, k := range t.TokenizeBuffer(e) {
+				if k.Type() == tokenizers.Integer {
+					if _, err := strconv.ParseInt(k.Value(), 10, 64); err != nil {
+						justified = true
+					}
+				} else if k.Type() == tokenizers.Float {
+					if _, err := strconv.ParseFloat(k.Value(), 32); err != nil {
+						justified = true
+					}
+				}
+			}
+		}
+		if !justified {
+			c.fail(Failure{Kind: "oracle", Op: "expr " + strRunes(expr), Impl: o.implLine(), Note: fmt.Sprintf("%q was rejected because of a numeric constant, but every integer constant of it fits 64 bits and every float constant is a finite 32-bit float", expr)})
+			return o
+		}
 	}
 	if o.status == "" && o.lexical && o.code == "UNKNOWN_SYMBOL" && foreignToken(expr) == "" {
 		c.fail(Failure{Kind: "oracle", Op: "expr " + strRunes(expr), Impl: o.implLine(), Note: fmt.Sprintf("%q was rejected with UNKNOWN_SYMBOL although every token of it is a symbol, keyword, word, number or string of the expression language", expr)})
